@@ -1127,6 +1127,21 @@ fn check_embedded<T: Tgt>(content: &str, c: &Case, exp_on: &Exp) -> Result<(), B
     Ok(())
 }
 
+/// [PT] "Ordinary float literals keep exactly the value they have without the extension": when the
+/// scalar is an ordinary literal (and no degree conversion applies) the reference value is the
+/// direct conversion to the target type, not the narrowed f64 value
+fn adjust_for_literal<T: Tgt>(exp: Exp, content: &str, tag: Tag) -> Exp {
+    let t4 = content.trim_matches(WS4);
+    if !core_literal(t4) || !matches!(tag, Tag::None | Tag::Radians) {
+        return exp;
+    }
+    let v = vec![std_value::<T>(t4).to64()];
+    match exp {
+        Exp::Ok(_) => Exp::Ok(v),
+        Exp::IfOk(_) => Exp::IfOk(v),
+        e => e,
+    }
+}
 fn lit_exp<T: Tgt>(content: &str, tag: Tag) -> Exp {
     let t4 = content.trim_matches(WS4);
     let v = std_value::<T>(t4).to64(); // exact: f32 -> f64 -> f32 is the identity
@@ -1192,6 +1207,7 @@ fn check_t<T: Tgt>(c: &Case) -> Result<(), Bad> {
             }
             let content = render(e, *trail);
             let (exp, _) = oracle(e, c.tag);
+            let exp = adjust_for_literal::<T>(exp, &content, c.tag);
             check_embedded::<T>(&content, c, &exp)
         }
         Body::Bad(e, d) => {
@@ -1228,7 +1244,8 @@ fn check_t<T: Tgt>(c: &Case) -> Result<(), Bad> {
             let (on, off, calls, bytes) = measured::<T>(&doc, c.pos)?;
             note_max("alloc_calls_per_KiB_patho", calls as f64 / (doc.len() as f64 / 1024.0).max(1.0));
             note_max("alloc_bytes_per_input_byte_patho", bytes as f64 / (doc.len() as f64).max(1024.0));
-            cmp_exp("option on", &on, &patho_expect(*k, *n, c.tag), &content)?;
+            let exp = adjust_for_literal::<T>(patho_expect(*k, *n, c.tag), &content, c.tag);
+            cmp_exp("option on", &on, &exp, &content)?;
             check_off::<T>(&content, &off)?;
             alloc_bound(doc.len(), calls, bytes)
         }
